@@ -351,7 +351,7 @@ class Harness:
             self.elems[n] = (i, n, g, ty, ro, pers)
         self.by_cname = {self.cname(n): self.elems[n] for n in self.elems}
         for (n, cb) in cfg['cb_param']:
-            g = self.elems[n][2] if n in self.elems else 0
+            g = self.elems[n][2] if n in self.elems else (n % 3 if cfg.get('fixed_groups') else 0)
             cf.param.add_update_callback(group='g%d' % g, name='n%d' % n, cb=self._upd_cb(cb))
         for (g, cb) in cfg['cb_group']:
             cf.param.add_update_callback(group='g%d' % g, cb=self._upd_cb(cb))
@@ -369,7 +369,44 @@ class Harness:
     def cname(self, n):
         if n in self.elems:
             return 'g%d.n%d' % (self.elems[n][2], n)
+        if self.cfg.get('fixed_groups'):      # session cases: a name is the same string in every session
+            return 'g%d.n%d' % (n % 3, n)
         return 'gx.n%d' % n
+
+    def reconnect(self, cfg):
+        """End the session and start the next one on the SAME Crazyflie/Param object, through the real callback lists:
+        `disconnected` (what close_link / a lost link calls: Param._disconnected among others), then `connection_requested`
+        (what open_link calls: Param._connection_requested); then the table of the device now connected is put into
+        Param.toc with Toc.add_element, as TocFetcher does.  The link object is kept (the dispatcher thread is parked in
+        its receive_packet); the device behind it is new."""
+        from cflib.crazyflie.param import ParamTocElement
+        cf = self.cf
+        # close_link / _link_error_cb: the link is dropped first, then the disconnected callbacks run
+        cf.link = None
+        cf.disconnected.call('fake://0')
+        # _ParamUpdater.close() released wait_lock: an updater that was waiting for it with a dequeued request now runs,
+        # finds no link, releases the lock again and goes back to its queue (assumed to happen before the next open_link)
+        w = self.sched.waiting(self.updater)
+        if w and w[0] == 'acquire':
+            if self.updater.wait_lock.l:
+                raise HarnessError('wait_lock still held after _ParamUpdater.close()')
+            self.sched.resume(self.updater)
+        self._expect(self.updater, 'get')
+        cf.connection_requested.call('fake://0')
+        self.cfg = cfg
+        self.dev = Device(cfg['dev_init'], cfg['dev_default'], cfg['dev_enoent'])
+        self.link.dev = self.dev
+        cf.link = self.link
+        self.elems = {}
+        for (i, n, g, ty, ro, pers) in cfg['toc']:
+            meta = ty | (0x40 if ro else 0) | (0x10 if pers else 0)
+            e = ParamTocElement(i, bytes([meta]) + ('g%d' % g).encode() + b'\0' + ('n%d' % n).encode() + b'\0')
+            if pers:
+                e.mark_persistent()
+            cf.param.toc.add_element(e)
+            self.elems[n] = (i, n, g, ty, ro, pers)
+        self.by_cname = {self.cname(n): self.elems[n] for n in self.elems}
+        self.log[:] = []
 
     def _expect(self, t, kind):
         w = self.sched.waiting(t)
@@ -404,6 +441,10 @@ class Harness:
         def f(name, res):
             e = self.by_cname.get(name)
             n = e[1] if e else int(name.split('.n')[1])
+            if e is None and res is not None and not isinstance(res, bool):
+                # a value for a name the connected device does not have (callback of an earlier session)
+                self.log.append(('misc', cb, n, [9]))
+                return
             if res is None:
                 r = [1]
             elif isinstance(res, bool):
